@@ -10,17 +10,22 @@ def dep_graph(tree):
     g = {n: set() for n in tree["order"]}
 
     def visit(e, ctx):
-        ctx = set(ctx or ())
+        # ctx = (symbols of the enclosing dependencies, symbols of the enclosing `visible if`s); the latter reach prompts
+        # only, so a promptless option does not depend on them
+        ctx, vis = ctx if ctx else (set(), set())
+        ctx, vis = set(ctx), set(vis)
         k = e["k"]
         if k == "menu":
             for x in e["depends"]:
                 ctx |= set(gen.expr_syms(x))
             if e["visible"] is not None:
-                ctx |= set(gen.expr_syms(e["visible"]))
-            return ctx
+                vis |= set(gen.expr_syms(e["visible"]))
+            return ctx, vis
         if k == "if":
-            return ctx | set(gen.expr_syms(e["cond"]))
+            return ctx | set(gen.expr_syms(e["cond"])), vis
         if k == "choice":
+            ctx |= vis
+            vis = set()
             for x in e["depends"]:
                 ctx |= set(gen.expr_syms(x))
             if e["prompt"] and e["prompt"]["cond"] is not None:
@@ -31,10 +36,12 @@ def dep_graph(tree):
                     ctx |= set(gen.expr_syms(dflt["cond"]))
             for m in members:
                 g[m] |= set(members) - {m}
-            return ctx
+            return ctx, vis
         if k == "config":
             n = e["name"]
             deps = set(ctx)
+            if e["prompt"]:
+                deps |= vis
             for x in e["depends"]:
                 deps |= set(gen.expr_syms(x))
             if e["prompt"] and e["prompt"]["cond"] is not None:
@@ -57,9 +64,9 @@ def dep_graph(tree):
                             g[t] |= set(gen.expr_syms(s["cond"]))
                         if "v" in s:
                             g[t] |= set(gen.expr_syms(s["v"]))
-        return ctx
+        return ctx, vis
 
-    gen.walk(tree["entries"], visit, set())
+    gen.walk(tree["entries"], visit, (set(), set()))
     return g
 
 
